@@ -31,8 +31,9 @@ const (
 var c19Names = []string{"ma", "mb", "mc", "zz", "trace"}
 
 type c19Edge struct {
-	to   int // index into c19Names
-	form int
+	to    int // index into c19Names
+	form  int
+	guard bool // the statement sits in try: ... except ImportError: trace.hit("caught")
 }
 
 type c19Spec struct {
@@ -74,7 +75,11 @@ func c19Source(s *c19Spec) string {
 		src += defs
 	}
 	for _, e := range s.imports {
-		src += c19ImportLine(e)
+		if e.guard {
+			src += "try:\n    " + c19ImportLine(e) + "except ImportError:\n    trace.hit(\"caught\")\n"
+		} else {
+			src += c19ImportLine(e)
+		}
 	}
 	if !s.defsFirst {
 		src += defs
@@ -95,10 +100,11 @@ type c19RefMod struct {
 }
 
 type c19Ref struct {
-	specs map[string]*c19Spec
-	mods  map[string]*c19RefMod
-	log   []string
-	err   string
+	specs  map[string]*c19Spec
+	mods   map[string]*c19RefMod
+	log    []string
+	err    string
+	failed map[string]bool // modules whose body raised (what becomes of them is not part of the property)
 }
 
 func (r *c19Ref) bind(m *c19RefMod, k string, v c19Val) { m.g[k] = v }
@@ -128,6 +134,7 @@ func (r *c19Ref) exec(name string) (*c19RefMod, bool) {
 	m := &c19RefMod{g: map[string]c19Val{}}
 	r.mods[name] = m // registered before the body runs
 	if !r.body(m, s) {
+		r.failed[name] = true
 		return nil, false
 	}
 	return m, true
@@ -150,9 +157,23 @@ func (r *c19Ref) body(m *c19RefMod, s *c19Spec) bool {
 			var ok bool
 			tm, ok = r.exec(t)
 			if !ok {
+				if e.guard && r.err == "ImportError" {
+					r.err = ""
+					r.log = append(r.log, "caught")
+					continue
+				}
 				return false
 			}
 		}
+		fail := func(kind string) bool {
+			if e.guard && kind == "ImportError" {
+				r.log = append(r.log, "caught")
+				return true
+			}
+			r.err = kind
+			return false
+		}
+		_ = fail
 		switch e.form {
 		case c19Import:
 			r.bind(m, t, c19Val{mod: t})
@@ -161,7 +182,9 @@ func (r *c19Ref) body(m *c19RefMod, s *c19Spec) bool {
 		case c19From, c19FromAs:
 			v, ok := tm.g["v"]
 			if !ok {
-				r.err = "ImportError"
+				if fail("ImportError") {
+					continue
+				}
 				return false
 			}
 			if e.form == c19From {
@@ -172,7 +195,9 @@ func (r *c19Ref) body(m *c19RefMod, s *c19Spec) bool {
 		case c19FromMod:
 			v, ok := tm.g["mc"]
 			if !ok {
-				r.err = "ImportError"
+				if fail("ImportError") {
+					continue
+				}
 				return false
 			}
 			r.bind(m, "z_"+t, v)
@@ -255,10 +280,11 @@ func VerifC19ImportGraph() {
 	//   0: main does `import ma`; every edge of ma and of mb in every form; definitions before/after imports
 	//   1: every form of main's two imports (same module twice, or two modules), every __all__ variant
 	//   2: from-import / star / from-import-module out of ma to {mb, mc, ma}, every __all__ variant, both definition orders
+	//   3: ma imports mb or mc and then a missing module; main catches the ImportError (or does not) and imports mb / mc again
 	full := verifBound(0, 1) == 1
 	mode := 0
 	if !full {
-		mode = verifChoice("mode", 3)
+		mode = verifChoice("mode", 4)
 	}
 	on := func(modes ...int) bool {
 		if full {
@@ -280,8 +306,14 @@ func VerifC19ImportGraph() {
 	defsFirst := dim("defs_first", 2, on(0, 2), 1) == 1
 	all := dim("all", 3, on(1, 2), 0)
 	main := &c19Spec{name: "__main__", defsFirst: true}
-	main.imports = append(main.imports, c19Edge{to: 0, form: 1 + dim("main_a_form", 6, on(1), 0)})
-	if f := dim("main_2_form", 7, on(1), c19None); f != c19None {
+	// slice 3 (quick) / always (thorough): main guards its first import with try/except ImportError and goes on;
+	// ma may end in an import of a missing module after its own imports
+	guard := dim("main_guard", 2, on(3), 0) == 1
+	main.imports = append(main.imports, c19Edge{to: 0, form: 1 + dim("main_a_form", 6, on(1), 0), guard: guard})
+	if mode == 3 {
+		// after the guarded import: import the modules ma reached, again
+		main.imports = append(main.imports, c19Edge{to: 1 + verifChoice("main_2_to3", 2), form: []int{c19Import, c19From, c19Star}[verifChoice("main_2_form3", 3)]})
+	} else if f := dim("main_2_form", 7, on(1), c19None); f != c19None {
 		main.imports = append(main.imports, c19Edge{to: verifChoice("main_2_to", 2), form: f})
 	}
 	ma := &c19Spec{name: "ma", defsFirst: defsFirst, all: all}
@@ -290,6 +322,8 @@ func VerifC19ImportGraph() {
 		aForm = verifChoice("a_form", 7)
 	} else if mode == 2 {
 		aForm = []int{c19From, c19Star, c19FromMod}[verifChoice("a_form2", 3)]
+	} else if mode == 3 {
+		aForm = []int{c19Import, c19From, c19Star}[verifChoice("a_form3", 3)]
 	} else {
 		aForm = c19Import
 	}
@@ -299,8 +333,13 @@ func VerifC19ImportGraph() {
 			to = []int{1, 2, 0, 3}[verifChoice("a_to", 4)]
 		} else if mode == 2 {
 			to = []int{1, 2, 0}[verifChoice("a_to2", 3)]
+		} else if mode == 3 {
+			to = []int{1, 2}[verifChoice("a_to3", 2)]
 		}
 		ma.imports = append(ma.imports, c19Edge{to: to, form: aForm})
+	}
+	if dim("a_then_missing", 2, on(3), 0) == 1 {
+		ma.imports = append(ma.imports, c19Edge{to: 3, form: c19Import})
 	}
 	mb := &c19Spec{name: "mb", defsFirst: defsFirst, all: all}
 	if f := dim("b_form", 7, on(0), c19None); f != c19None {
@@ -319,7 +358,7 @@ func VerifC19ImportGraph() {
 	py.RegisterModule(&py.ModuleImpl{Info: py.ModuleInfo{Name: "sys"}, Globals: py.StringDict{}})
 	py.RegisterModule(c19TraceModule())
 
-	ref := &c19Ref{specs: map[string]*c19Spec{"ma": ma, "mb": mb, "mc": mc}, mods: map[string]*c19RefMod{}}
+	ref := &c19Ref{specs: map[string]*c19Spec{"ma": ma, "mb": mb, "mc": mc}, mods: map[string]*c19RefMod{}, failed: map[string]bool{}}
 	refMain := &c19RefMod{g: map[string]c19Val{}}
 	ref.mods["__main__"] = refMain
 	ok := ref.body(refMain, main)
@@ -348,6 +387,9 @@ func VerifC19ImportGraph() {
 	verifAssert(err == nil, "the program runs to completion")
 	c19CheckModule(ctx, mod, refMain)
 	for _, name := range []string{"ma", "mb", "mc"} {
+		if ref.failed[name] {
+			continue // whether a module whose body raised stays cached is not part of the property
+		}
 		want, imported := ref.mods[name]
 		real, gerr := ctx.GetModule(name)
 		verifAssert((gerr == nil) == imported, "the context holds exactly the modules that were imported")
